@@ -8,6 +8,7 @@ import (
 	"encoding/json"
 	"fmt"
 	"os"
+	"path/filepath"
 	"strings"
 	"testing"
 	"time"
@@ -18,8 +19,9 @@ import (
 )
 
 type znProg struct {
-	Name   string `json:"name"`
-	Source string `json:"source"`
+	Name    string            `json:"name"`
+	Source  string            `json:"source"`
+	Modules map[string]string `json:"modules"` // optional: relative path (e.g. "甲.zn", "库/乙.zn") -> source; the program then runs as a file
 }
 
 func TestZnvcRun(t *testing.T) {
@@ -40,7 +42,23 @@ func TestZnvcRun(t *testing.T) {
 				}
 			}()
 			in := NewInterpreter("znrun").SetExternalLibs([]*runtime.Library{libJson.Export(), libFile.Export()})
-			v, err := in.LoadScript([]rune(p.Source)).Execute(runtime.ElementMap{})
+			if len(p.Modules) > 0 {
+				dir, derr := os.MkdirTemp("", "znrunmods")
+				if derr != nil {
+					done <- "error " + derr.Error()
+					return
+				}
+				defer os.RemoveAll(dir)
+				for rel, src := range p.Modules {
+					os.MkdirAll(filepath.Dir(filepath.Join(dir, rel)), 0o755)
+					os.WriteFile(filepath.Join(dir, rel), []byte(src), 0o644)
+				}
+				os.WriteFile(filepath.Join(dir, "main.zn"), []byte(p.Source), 0o644)
+				in.LoadFile(filepath.Join(dir, "main.zn"))
+			} else {
+				in.LoadScript([]rune(p.Source))
+			}
+			v, err := in.Execute(runtime.ElementMap{})
 			if err != nil {
 				done <- "error " + strings.ReplaceAll(err.Error(), "\n", " | ")
 				return
